@@ -3,7 +3,7 @@ from tools.vlib import *
 from props.C23 import sched_harness, config_consts, aimed_advance, SECOND
 
 PID = "C24"
-READY = False
+READY = True
 MANIFEST = {
     "level_text": "Lean 4 theorems about a model of Node's assigned-fetch scheduler (schedule_assigned_fetch, "
                   "process_pending_fetches with its two loops and the priority sort, dispatch_pending_fetch, "
